@@ -138,6 +138,11 @@ fn shrink_candidates(s: &Scenario, structural: bool) -> Vec<Scenario> {
         c.post_write = false;
         out.push(c);
     }
+    if s.post_load {
+        let mut c = s.clone();
+        c.post_load = false;
+        out.push(c);
+    }
     if s.weak_cas_rate > 0 {
         let mut c = s.clone();
         c.weak_cas_rate = 0;
